@@ -141,6 +141,18 @@ def r_c01_chronological(s4, repo, scratch):
             'cmd': '%s --color never %s %s' % (s4, b, a), 'expected': ' '.join(want), 'observed': ' '.join(got), 'failed': got != want}
 
 
+def r_c01_submillisecond(s4, repo, scratch):
+    """instants that differ only below the millisecond are still merged in order"""
+    a = os.path.join(scratch, 'c01_us_a.log'); b = os.path.join(scratch, 'c01_us_b.log')
+    open(a, 'w').write('2024-01-01T00:00:00.000100+00:00 A1\n2024-01-01T00:00:00.000900+00:00 A2\n2024-01-01T00:00:00.002000+00:00 A3\n')
+    open(b, 'w').write('2024-01-01T00:00:00.000500+00:00 B1\n2024-01-01T00:00:00.001500+00:00 B2\n2024-01-01T00:00:00.002000+00:00 B3\n')
+    rc, out, err = run_s4(s4, ['--color', 'never', a, b])
+    got = [l.split()[1].decode() for l in out.split(b'\n') if l.strip()]
+    want = ['A1', 'B1', 'A2', 'B2', 'A3', 'B3']
+    return {'name': 'C01.submillisecond', 'input': a, 'how_made': 'two text logs with microsecond timestamps interleaved inside one millisecond, plus one exact tie',
+            'cmd': '%s --color never %s %s' % (s4, a, b), 'expected': ' '.join(want), 'observed': ' '.join(got), 'failed': got != want}
+
+
 def r_c03_evtx_window(s4, repo, scratch):
     """an event log stored out of order: every record with creation time <= B is printed under --dt-before B"""
     f = os.path.join(repo, 'logs/programs/evtx/Microsoft-Windows-Kernel-PnP%4Configuration.evtx')
@@ -295,12 +307,31 @@ def r_c13_evtx_prepend_file_only(s4, repo, scratch):
             'observed': obs, 'failed': bool(bad)}
 
 
+def r_c02_mixed_notation_first_message(s4, repo, scratch):
+    """a continuation line that carries a timestamp in another notation: the file is still printed byte for byte"""
+    bad = None
+    first = None
+    for i, second in enumerate(('    peer: 2024/03/01 10:00:04 connection reset', '2024/03/01 10:00:04 peer says hello from another log')):
+        inp = os.path.join(scratch, 'c02_mixed_%d.log' % i)
+        body = ('2024-03-01T10:00:00+00:00 host1 app[12]: alpha upstream failed, peer said:\n' + second + '\n'
+                '2024-03-01T10:00:05+00:00 host1 app[12]: bravo second message\n2024-03-01T10:00:09+00:00 host1 app[12]: charlie third message\n').encode()
+        open(inp, 'wb').write(body)
+        first = first or inp
+        rc, out, err = run_s4(s4, ['--color', 'never', inp])
+        if out != body:
+            bad = bad or (inp, out.decode('utf-8', 'replace')[:300])
+    return {'name': 'C02.mixed_notation_first_message', 'input': bad[0] if bad else first,
+            'how_made': 'four-line RFC 3339 log whose second line holds a timestamp in the YYYY/MM/DD notation (block zero sees two patterns and re-parses)',
+            'cmd': '%s --color never <file>' % s4, 'expected': 'output byte-identical to the file',
+            'observed': 'identical' if not bad else 'file %s printed as %r' % bad, 'failed': bool(bad)}
+
+
 RECIPES = {
-    'C02': [r_c02_continuation_at_block_boundary],
+    'C02': [r_c02_continuation_at_block_boundary, r_c02_mixed_notation_first_message],
     'C04': [r_c04_instants, r_c04_fractions],
     'C10': [r_c03_evtx_window],
-    'C01': [r_c01_tie_order, r_c01_chronological],
-    'C06': [r_c01_tie_order, r_c01_chronological],
+    'C01': [r_c01_tie_order, r_c01_chronological, r_c01_submillisecond],
+    'C06': [r_c01_tie_order, r_c01_chronological, r_c01_submillisecond],
     'C13': [r_c13_field_order_fixedstruct, r_c13_align_widest_printed, r_c13_evtx_prepend_file_only],
     'C03': [r_c03_journal_before_inclusive, r_c03_evtx_window, r_c03_yearless_tie_at_after],
     'C08': [r_c08_equal_times, r_c08_order],
